@@ -1,15 +1,21 @@
 //@unit props=C01,C12
 // Unit arith_sites — properties C01 "analysis is total" (slice: the integer-arithmetic sites that turn
-// attacker-chosen 256-bit constants, truncated to `usize`, into offsets and sizes) and C12 "entries
-// inside their slot" (slice: where such a result is a bit position inside a 256-bit slot).
+// attacker-chosen 256-bit constants, truncated to `usize`, into offsets and sizes — DESIGN §5 D7, D8) and
+// C12 "entries inside their slot" (slice: where such a result is a bit position inside a 256-bit slot).
 //
-//   src/tc/lift/sub_word.rs        insert_sub_words (nested in SubWordValue::run), SubWordValue::get_shift, SubWord
-//   src/tc/lift/mul_shifted.rs     MulShiftedValue::which_power_of_2
+//   src/tc/lift/sub_word.rs         insert_sub_words (nested in SubWordValue::run), SubWordValue::get_shift, SubWord::new
+//   src/tc/lift/mul_shifted.rs      MulShiftedValue::which_power_of_2, insert_multiplicative_shifts (nested in run)
+//   src/tc/rule/mapping_access.rs   MappingAccessRule::infer  (+ Span::new, TE::mapping, TCSV::type_var,
+//                                   TypeCheckerState::{var_unchecked, infer_for})
+//   src/vm/state/memory.rs          Memory::{load_slice, decompose_size}
 //
-// What is decided: for ANY `usize` that comes out of a truncated constant, none of the functions under
-// contract overflows, underflows, indexes out of bounds or unwraps a None (Verus' implicit obligations =
-// C01); a `SubWord` node that is created lies inside its slot; a shift amount that is reported is <= 256.
-// What is not: see the //@dropped lines at the end.
+// What is decided: for ANY `usize` that comes out of a truncated constant (the conversions have NO
+// contract), none of the functions under contract overflows, underflows, indexes out of bounds, unwraps a
+// None or violates a callee precondition (Verus' implicit obligations = C01; unlabelled failures are
+// attributed to the function's props); every loop terminates; a `SubWord` node that is created lies inside
+// its slot; a `Shifted` node's / a reported shift amount is <= 256; the span a mapping access records
+// starts at bit projection * 256 exactly, or nothing is recorded when that does not fit.
+// What is not: see the //@dropped lines at the end. Everything marked A-... is an ASSUMPTION.
 use vstd::prelude::*;
 use std::sync::Arc;
 use std::collections::HashMap;
@@ -67,8 +73,10 @@ pub assume_specification<T, F: FnOnce(T) -> bool>[ Option::<T>::is_some_and ](o:
     ensures o is None ==> !r, o matches Some(x) ==> f.ensures((x,), r);
 
 // ---------------- A-CALLEE: the traversal combinator and the folder ----------------
-// `v.transform_data(insert_sub_words)` from within `insert_sub_words` itself (R-SELFREF) and
-// `v.constant_fold()`: assumed callees, uninterpreted results (determinism only).
+// `v.transform_data(f)` from within `f` itself (R-SELFREF: `tx_exec_isw` for insert_sub_words, `tx_exec_ims`
+// for insert_multiplicative_shifts) and `constant_fold()` on a node / on a payload: assumed callees,
+// uninterpreted results (determinism only). The folder's own no-overflow precondition (`child_size() + 1`,
+// unit value_size) is not carried here (see //@dropped).
 pub uninterp spec fn tx_isw(v: RSV) -> RSV;
 pub uninterp spec fn tx_ims(v: RSV) -> RSV;
 pub uninterp spec fn cfold(v: RSV) -> RSV;
@@ -125,7 +133,7 @@ impl RSV {
 //@end
 //@extract file=src/tc/lift/sub_word.rs path="impl SubWord" kind=header
 //@end
-//@extract file=src/tc/lift/sub_word.rs path="impl SubWord|fn new"
+//@extract file=src/tc/lift/sub_word.rs path="impl SubWord|fn new" props=C01
 //@ret r
 //@spec
         ensures r == (SubWord { offset, length }),
@@ -142,7 +150,7 @@ impl RSV {
     #[verifier::external_body]
     pub fn get_region(data: &RSVD) -> (r: Option<SubWord>) { unimplemented!() }
 
-//@extract file=src/tc/lift/sub_word.rs path="impl SubWordValue|fn get_shift"
+//@extract file=src/tc/lift/sub_word.rs path="impl SubWordValue|fn get_shift" props=C01
 //@ret r
 //@end
 }
@@ -186,7 +194,7 @@ pub struct ExErrors(ar_ext::Errors);
 
 //@extract file=src/tc/expression.rs path="impl Span" kind=header
 //@end
-//@extract file=src/tc/expression.rs path="impl Span|fn new"
+//@extract file=src/tc/expression.rs path="impl Span|fn new" props=C01
 //@ret r
 //@spec
         ensures r == (Span { typ, offset, size }),
@@ -195,7 +203,7 @@ pub struct ExErrors(ar_ext::Errors);
 
 //@extract file=src/tc/expression.rs path="impl TypeExpression" kind=header
 //@end
-//@extract file=src/tc/expression.rs path="impl TypeExpression|fn mapping"
+//@extract file=src/tc/expression.rs path="impl TypeExpression|fn mapping" props=C01
 //@ret r
 //@spec
         ensures r == (TypeExpression::Mapping { key, value }),
@@ -212,40 +220,54 @@ pub struct ExErrors(ar_ext::Errors);
 
 //@extract file=src/vm/value/mod.rs path="impl TCSV" kind=header
 //@end
-//@extract file=src/vm/value/mod.rs path="impl TCSV|fn type_var"
+//@extract file=src/vm/value/mod.rs path="impl TCSV|fn type_var" props=C01
 //@ret r
 //@spec
         ensures r == self.aux(),
 //@end
 }
 
-// A-CALLEE: the unifier state is opaque. Its only view here is the LOG of inference judgements
-// `(variable, expression)` handed to `infer`, in call order.
+// A-CALLEE: the unifier state is opaque. Its views here: the LOG of inference judgements
+// `(variable, expression)` handed to `infer`, in call order, and the set of type variables it `knows`
+// (has an inference set for).
 #[verifier::external_body]
 pub struct TypeCheckerState { _p: u8 }
 pub uninterp spec fn inferred(s: &TypeCheckerState) -> Seq<(TypeVariable, TypeExpression)>;
+pub uninterp spec fn knows(s: &TypeCheckerState, tv: TypeVariable) -> bool;
 pub uninterp spec fn fresh_tv(s: &TypeCheckerState) -> TypeVariable;
 impl TypeCheckerState {
-    // A-CALLEE: `infer(variable, expression)` (HashMap/HashSet bookkeeping, `impl Into` arguments
-    // monomorphised) — ASSUMED to record exactly the judgement it is handed; no precondition (it has no
-    // panicking path on these arguments that a contract here could express).
+    // A-CALLEE: `infer(variable, expression)` (HashMap<_, HashSet<_>> bookkeeping; `impl Into` arguments
+    // monomorphised). Written from its body: it PANICS (`get_mut(&variable).unwrap()`) when `variable` has
+    // no inference set — the precondition; for an expression that is not an `Equal` it records exactly the
+    // judgement it is handed (for `Equal` it also adds the symmetric judgement or nothing: not needed
+    // here, nothing is assumed). The set of known variables is unchanged.
     #[verifier::external_body]
     pub fn infer(&mut self, variable: TypeVariable, expression: TypeExpression)
-        ensures inferred(final(self)) == inferred(old(self)).push((variable, expression)), fresh_tv(final(self)) == fresh_tv(old(self)),
+        requires
+            knows(old(self), variable),
+            !(expression is Equal),
+        ensures
+            inferred(final(self)) == inferred(old(self)).push((variable, expression)),
+            forall|tv: TypeVariable| #[trigger] knows(final(self), tv) == knows(old(self), tv),
     { unimplemented!() }
     // A-CALLEE / A-UNSAFE: `unsafe fn allocate_ty_var` (no memory unsafety: "unsafe" marks an API
-    // discipline) returns some variable and records no judgement.
+    // discipline) returns a variable that it registers (`inferences.entry(new_tv).or_insert(..)`), forgets
+    // none, and records no judgement.
     #[verifier::external_body]
     pub fn allocate_ty_var_exec(&mut self) -> (r: TypeVariable)
-        ensures inferred(final(self)) == inferred(old(self)), r == fresh_tv(old(self)),
+        ensures
+            inferred(final(self)) == inferred(old(self)),
+            r == fresh_tv(old(self)),
+            knows(final(self), r),
+            forall|tv: TypeVariable| knows(old(self), tv) ==> #[trigger] knows(final(self), tv),
     { unimplemented!() }
 
-//@extract file=src/tc/state/mod.rs path="impl TypeCheckerState|fn var_unchecked"
+//@extract file=src/tc/state/mod.rs path="impl TypeCheckerState|fn var_unchecked" props=C01
 //@ret r
 //@spec
         ensures r == value.aux(),
 //@end
-//@extract file=src/tc/state/mod.rs path="impl TypeCheckerState|fn infer_for"
+//@extract file=src/tc/state/mod.rs path="impl TypeCheckerState|fn infer_for" props=C01
 //@ret r
 //@rw R-IMPL-INTO
 //@old
@@ -253,16 +275,30 @@ expression: impl Into<TypeExpression>
 //@new
 expression: TypeExpression
 //@spec
+        requires
+            knows(old(self), value.aux()),
+            !(expression is Equal),
         ensures
             r == value.aux(),
             inferred(final(self)) == inferred(old(self)).push((value.aux(), expression)),
+            forall|tv: TypeVariable| #[trigger] knows(final(self), tv) == knows(old(self), tv),
 //@end
 }
 
 // A-EXT: the `InferenceRule` interface of src/tc/rule/mod.rs (supertraits dropped; a declaration
 // without executable content).
+// Its precondition is the documented invariant of the typing state ("the only source of new type
+// variables is the state": a value handed to a rule was registered together with its whole sub-tree by
+// `TypeCheckerState::register`), restricted to the nodes this rule looks at.
 trait InferenceRule {
-    fn infer(&self, value: &TCBoxedVal, state: &mut TypeCheckerState) -> Result<()>;
+    fn infer(&self, value: &TCBoxedVal, state: &mut TypeCheckerState) -> Result<()>
+        requires forall|tv: TypeVariable| node_var(**value, tv) ==> #[trigger] knows(old(state), tv);
+}
+/// `tv` is the type variable of `v`, of its slot key, or of that key's mapping key / mapping slot
+pub open spec fn node_var(v: TCSV, tv: TypeVariable) -> bool {
+    ||| tv == v.aux()
+    ||| (v.dt() matches TCSVD::StorageSlot { key } && (tv == key.aux()
+            || (key.dt() matches TCSVD::MappingIndex { key: k, slot, .. } && (tv == k.aux() || tv == slot.aux()))))
 }
 
 /// the pattern the rule fires on: `slot< mapping_ix<slot>[key] (+ projection) >`
@@ -349,10 +385,10 @@ fn opaque_for(range: core::ops::Range<usize>, step: usize, map: &mut HashMap<usi
     fn get_or_initialize<'a, K>(map: &'a mut HashMap<K, Vec<MemStore>>, key: &'a K) -> &'a RuntimeBoxedVal
     { unimplemented!() }
 
-//@extract file=src/vm/state/memory.rs path="impl Memory|fn decompose_size"
+//@extract file=src/vm/state/memory.rs path="impl Memory|fn decompose_size" props=C01
 //@ret r
 //@end
-//@extract file=src/vm/state/memory.rs path="impl Memory|fn load_slice"
+//@extract file=src/vm/state/memory.rs path="impl Memory|fn load_slice" props=C01
 //@ret r
 //@rw R-LOOP-OPAQUE
 //@old
@@ -362,6 +398,13 @@ opaque_for($1, $2, &mut self.constant_offsets, &mut values);
 //@end
 }
 
-//@dropped SubWordValue::get_region (bitvec bits_le, itertools find_position, closures): assumed callee with NO contract
+//@dropped SubWordValue::get_region (bitvec bits_le, itertools find_position, closures): assumed callee with NO contract; the in-slot bound of the sub-word is established by insert_sub_words' own check, so nothing about the mask scan is assumed, and nothing about it is proved (DESIGN §6 C12 "get_region: bit-scan" is not decided)
+//@dropped load_slice: the body of `for word_offset in (offset..end).step_by(32) { values.push(get_or_initialize(..).clone()) }` is R-LOOP-OPAQUE (StepBy iterator): the range and step expressions are verified as arguments, whatever the body does (incl. any arithmetic added to it) is not; Memory::get_or_initialize (HashMap Entry API, closure, `entry.last().unwrap()`) is an assumed callee without contract — its unwrap relies on the unchecked invariant "every vector in the maps is non-empty"
+//@dropped RSV::new / SymbolicValue::constant_fold / SymbolicValueData::constant_fold: assumed callees; their no-overflow precondition `child_size() + 1` ("fewer than usize::MAX nodes below", proved under that precondition in unit value_size) is not carried to the call sites in load_slice, decompose_size, get_shift, insert_multiplicative_shifts
+//@dropped SymbolicValue::transform_data applied to the enclosing function (R-SELFREF): assumed callee, uninterpreted; SubWordValue::run / MulShiftedValue::run (one line: hand the nested fn to the traversal) are not extracted
+//@dropped TypeCheckerState::{infer, allocate_ty_var}: assumed callees (HashMap/HashSet bookkeeping, `unsafe fn`); infer's precondition "the variable is known" is discharged for the fresh variable and ASSUMED (trait-level precondition of InferenceRule::infer = the typing state's documented invariant) for the variables of the nodes of the value handed to the rule; TypeExpression::packed_of (itertools map_into) assumed with its exact one-line meaning
+//@dropped lift_packed_encodings (src/tc/lift/packed_encoding.rs) `last_position = offset + size`: NOT under contract — the function is three itertools/closure chains (map/all, map/sorted_by_key/collect, filter/collect) around a `for PackedSpan { .. } in &spans` pattern loop, all outside Verus; the only honest precondition (every span comes from a SubWord node with offset + size <= 256 or a Shifted node with offset <= 256 over a SubWord with size <= 256, hence offset + size <= 512) is a whole-tree invariant that would have to be ASSUMED on an opaque stand-in; its two producer sites are the obligations C12.arith.sub_word.region_inside_slot and C12.arith.mul_shifted.shift_inside_slot of this unit (grep: SubWord / Shifted nodes are constructed nowhere else outside tests and the structural copy in SymbolicValueData::transform)
+//@dropped Span::end_bit (`offset + size`), the `ofs + offset` accumulation of abi_type_for_impl (src/tc/mod.rs), MemStoreSize::bits_count, Memory::{store_with_size, load}: not under contract in this unit
+//@dropped which_power_of_2: that the reported k is the base-2 logarithm of the argument is NOT claimed (KnownWord `%`, `/`, `==` are uninterpreted here; DESIGN §5 notes which_power_of_2(10) == Some(3)); only termination, k <= 256 and "0 only for the word 1"
 } // verus!
 fn main() {}
